@@ -588,13 +588,16 @@ def record_space(args) -> List[dict]:
       ev.append(record_event(space, dnas, ids, fits, json.dumps({k: e[k] for k in ('op', 'n', 'pct')}), 'selectors.' + e['op'].capitalize(),
                              'selector', (lambda e_: lambda s: real_op(e_))(e), 0, expr=e, det=True, count=cnt, submulti=True, cache=cache,
                              session=True, rngfree=True))
-    exprs = list(d1) if pi == 0 or thorough else rng.sample(d1, len(d1) // 4)
+    # the algebra does not depend on the space: the complete depth-1 set runs on one population of every third
+    # space (rotating with the seed), a sample of it everywhere else
+    full = thorough or (pi == 0 and (sum(map(ord, name)) + seed) % 3 == 0)
+    exprs = list(d1) if full else rng.sample(d1, len(d1) // 4)
     exprs += gen_exprs(rng, 2, depth2)
     if thorough:
       exprs += gen_exprs(rng, 3, depth2 // 2)
     for k, e in enumerate(exprs):
       ev.append(record_event(space, dnas, ids, fits, 'expr', 'expr[selectors]', 'expr', (lambda e_: lambda s: real_op(e_))(e), 0,
-                             expr=e, det=True, cache=cache, session=k % 8 == 0, rngfree=True))
+                             expr=e, det=True, cache=cache, session=k % 24 == 0, rngfree=True))
     traces.append(dict(id=f'{name}-p{pi}', space=name, spec=struct, ev=ev))
   # every valid DNA as single parent of the mutators, (a sample of) all ordered pairs as parents of the recombinators
   if space.valid and part == 'all':
